@@ -61,7 +61,7 @@ func loadKnown() *KnownFindings {
 // all still be generated.
 func contractLevel(kind string) bool {
 	switch kind {
-	case "ensures", "frame", "lemma", "decreases", "refines":
+	case "ensures", "lemma", "decreases", "refines":
 		return true
 	}
 	return strings.HasPrefix(kind, "invariant")
